@@ -199,6 +199,12 @@ def main(tier, replay=None):
     for _ in range(280 if quick else 15000):
         cases += rand_cases(rng)
     obs = fncases.observe(lib, cases, ranges=False)
+    # the host edits its lists in place between two evaluations of the same call
+    mo = fncases.observe_after_mutation(lib, cases[::7][:800 if quick else 30000])
+    for o in mo:
+        o['id'] = len(obs) + 1
+        obs.append(o)
+    run.extra['evaluations_after_in_place_edit'] = len(mo)
     so = suite.observations({'SUM','PRODUCT','AVERAGE','MIN','MAX','COUNT','MEDIAN','MODE','MODE.SNGL','VAR','VAR.S','VARP','VAR.P','AVEDEV','HARMEAN','LARGE','SLOPE','SUMIF','COUNTIF','AVERAGEIF','SUMIFS','AVERAGEIFS','MAXIFS'}, len(obs) + 1)   # the same functions as the repository's own tests call them
     run.extra['calls_from_repository_tests'] = len(so)
     obs += so
